@@ -8,6 +8,7 @@ import DesyncModel.Tables.Claim
 import DesyncModel.FactFifo
 import DesyncModel.Lemmas
 import DesyncModel.Setters
+import DesyncModel.Inv.JobReach
 
 namespace Desync.C02
 open Desync Gen
@@ -37,5 +38,21 @@ theorem desync_push_is_append (s s' : State) (a q : Nat) (kind : JobKind) (act :
   · (repeat' split at hstep) <;>
     · obtain ⟨rfl, _⟩ := Prod.mk.inj (Option.some.inj hstep)
       simp [State.setQ, hlt]
+
+/-- **C02 holds in the model**: in every reachable state — any number of objects, threads and calls, any pool size,
+any interleaving — an operation has begun only if every operation accepted earlier on the same object has ended
+(job ids are allocated under the queue lock inside the scheduling call, so id order is acceptance order).
+Proof: `inOrder_reachable`; the order invariant (`OrderInvF`: queue lists are increasing, the job in the hands of a
+runner is older than every queued job of its queue, finished jobs have ended, a begun job has only ended predecessors)
+is inductive over all 101 program counters and every environment step, together with the job invariant of C01. -/
+theorem C02_holds : C02_full := fun _ hr => inOrder_reachable hr
+
+/-- the queue lists are increasing in every reachable state: FIFO order is id order -/
+theorem queue_lists_increasing {s : State} (hr : Reachable s) {q : Nat} {v : JobQ} (hv : s.qs[q]? = some v) : v.jobs.Pairwise (· < ·) :=
+  (fullInv_reachable hr).2.ord.sorted q v.jobs (qjobs_of hv)
+
+/-- non-vacuity: a reachable state with two jobs on one queue, the older one begun -/
+example : ∃ s, Reachable s ∧ ∃ (b1 b2 : Job), s.jobs[0]? = some b1 ∧ s.jobs[1]? = some b2 ∧ b1.q = b2.q ∧ b1.begun = true := by
+  refine ⟨_, Reachable.step (.act 1) (Reachable.step (.invoke 2 none (.desync 0)) (Reachable.step (.act 0) (Reachable.step (.invoke 1 none (.sync 0)) (Reachable.init 1 0 1) rfl) rfl) rfl) rfl, _, _, rfl, rfl, ?_, ?_⟩ <;> decide
 
 end Desync.C02
